@@ -125,7 +125,20 @@ func runC08(c *Ctx) {
 			})
 		}
 	}
-	c.Floor("C08.L1-sync-under-mutex", 2)
+	// one sync is one critical section: the per-publisher lock is not taken anew for every segment (it would be
+	// free between two segments, and a second sync of the publisher would run in the middle of the first)
+	if h := c15HandleFn(c); h != nil {
+		perSeg := token.NoPos
+		for _, st := range c.CallsInl(h, Call("sync.Mutex).Lock", Field("syncMutex", Any())), 2) {
+			o := st.Outer()
+			if o.Parent() == h && ReachableFromSucc(o.Block(), o.Block()) {
+				perSeg = o.Pos()
+			}
+		}
+		c.Check(!perSeg.IsValid(), "C08.L1-sync-under-mutex", c.short(h.String())+" › one critical section per sync", h.Pos(),
+			"the per-publisher lock is taken outside the segment loop: all segments of a sync run in one critical section", "the per-publisher lock is taken inside the segment loop (at "+c.pos(perSeg)+"): between two segments it is free, and another sync of the same publisher interleaves with this one")
+	}
+	c.Floor("C08.L1-sync-under-mutex", 3)
 	c.Floor("C08.L1-hook-slot-in-region", 2)
 	// hook dispatch reads the slot under the read lock
 	for _, fn := range c.Funcs(dagsyncPkg) {
